@@ -150,6 +150,33 @@ def run(check):
                   'MetricReceiver.metricReceived does not fire events.metricReceived exactly once per admitted datapoint',
                   construct='events.metricReceived(metric, datapoint)')
 
+  # ------------------------------------------------------------------ the admitted datapoint is passed on as parsed
+  from .c12 import rule_normalisation
+  r_p = check.rule('R-C01-admission-passthrough', 3, 'metricReceived passes name, timestamp and value on unchanged (apart from the '
+                   'two documented normalisations)')
+  rule_normalisation(check, cx, r_p)
+  # ------------------------------------------------------------------ text encoding of pickled names
+  r_e = check.rule('R-C01-pickle-encoding', 1, '8-bit strings of python2 clients are decoded as UTF-8, the encoding clients use')
+  for sc in repo.module('carbon.util').classes.get('SafeUnpickler', []):
+    if not any(b.split('.')[-1] in ('Unpickler', '_Unpickler') for b in sc.base_names):
+      continue      # the cPickle (python2) variant has no text decoding step
+    loads = sc.methods.get('loads')
+    if loads is None:
+      r_e.cannot_decide('SafeUnpickler.loads not found')
+      continue
+    ctors = [c for c in walk_no_nested(loads.node, include_self=False) if isinstance(c, ast.Call) and
+             isinstance(c.func, ast.Name) and loads.params and c.func.id == loads.params[0]]
+    if not ctors:
+      r_e.cannot_decide('SafeUnpickler.loads: construction of the unpickler not recognised')
+    for c in ctors:
+      enc = next((kw.value for kw in c.keywords if kw.arg == 'encoding'), None)
+      if isinstance(enc, ast.Constant) and str(enc.value).lower().replace('-', '') == 'utf8':
+        r_e.ok('unpickler built with encoding="utf-8"', loads.loc(c))
+      else:
+        r_e.violate('pickled names decoded with the wrong encoding', loads, c, 'the unpickler is built with encoding=%s: metric names '
+                    'pickled as 8-bit strings by python2 clients (UTF-8 bytes) are decoded as ASCII, so a non-ASCII name makes the '
+                    'whole frame fail and be dropped' % (unparse(enc) if enc is not None else 'the default (ASCII)'))
+
   # ------------------------------------------------------------------ routing
   r_r = check.rule('R-C01-routing', 3, 'metric, timestamp and value are routed to the positions the client encoded them in')
   text = {}
